@@ -341,6 +341,12 @@ class Engine(object):
     def field_type(self, cls, field):
         if cls is None:
             return None
+        cc = getattr(self, "cur_contract_top", None)
+        if cc is not None and cc.fields:
+            for c in self.src.mro(cls):
+                t = cc.fields.get("%s.%s" % (c, field))
+                if t:
+                    return t
         for c in self.src.mro(cls):
             sh = self.shapes.get(c)
             if sh and field in sh:
@@ -523,28 +529,54 @@ class Engine(object):
             r = z3.Int("r!c")
             k = z3.Int("k!c")
             x = z3.Const("x!c", u.Val)
+            # (object ids are positive: R(r) with r <= 0 denotes nothing, so a stored reference is 0 < id < alloc0)
             # only objects that existed at entry (r < alloc0): the "entry value" of a field of an object allocated
             # later is whatever its constructor contract says (it may well refer to other new objects)
             old_obj = z3.And(r > 0, r < a0)
             if field == "$at":
                 v = arr[r][k]
-                self.global_axioms.append(z3.ForAll([r, k], z3.Implies(z3.And(old_obj, u.is_R(v)), u.r(v) < a0),
+                self.global_axioms.append(z3.ForAll([r, k], z3.Implies(z3.And(old_obj, u.is_R(v)), z3.And(u.r(v) > 0, u.r(v) < a0)),
                                                     patterns=[arr[r][k]]))
             elif field == "$val":
                 v = arr[r][x]
-                self.global_axioms.append(z3.ForAll([r, x], z3.Implies(z3.And(old_obj, u.is_R(v)), u.r(v) < a0),
+                self.global_axioms.append(z3.ForAll([r, x], z3.Implies(z3.And(old_obj, u.is_R(v)), z3.And(u.r(v) > 0, u.r(v) < a0)),
                                                     patterns=[arr[r][x]]))
             elif field in ("$len", "$has", "$dlen", "$klen"):
                 pass
             elif field == "$kat":
                 v = arr[r][k]
-                self.global_axioms.append(z3.ForAll([r, k], z3.Implies(z3.And(old_obj, u.is_R(v)), u.r(v) < a0),
+                self.global_axioms.append(z3.ForAll([r, k], z3.Implies(z3.And(old_obj, u.is_R(v)), z3.And(u.r(v) > 0, u.r(v) < a0)),
                                                     patterns=[arr[r][k]]))
             else:
                 v = arr[r]
-                self.global_axioms.append(z3.ForAll([r], z3.Implies(z3.And(old_obj, u.is_R(v)), u.r(v) < a0),
+                self.global_axioms.append(z3.ForAll([r], z3.Implies(z3.And(old_obj, u.is_R(v)), z3.And(u.r(v) > 0, u.r(v) < a0)),
                                                     patterns=[arr[r]]))
+                self.entry_typing_axioms(field, arr, old_obj, r, k)
         return arr
+
+    def entry_typing_axioms(self, field, arr, old_obj, r, k):
+        """The entry heap is well-typed with respect to the declared shapes.  Every concrete read of a field already
+        assumes the declared type of what it reads (read_field); these axioms state the same for the entry heap under
+        a quantifier (a clause `forall e: ... xs[e].table ...` reads fields of objects no statement ever touches)."""
+        u = self.u
+        for cname in sorted(self.shapes):
+            t = (self.shapes.get(cname) or {}).get(field)
+            if t is None or t == "any" or cname not in self.src.classes:
+                continue
+            try:
+                v = arr[r]
+                owner = z3.And(old_obj, self.class_test(r, cname))
+                self.global_axioms.append(z3.ForAll([r], z3.Implies(owner, self.type_pred(v, t)), patterns=[arr[r]]))
+                inner = t[4:] if t.startswith("opt:") else t
+                if inner.startswith("seq:") and inner[4:] not in ("any", ""):
+                    at0 = z3.Const("H0__at", u.AtSort)
+                    ln0 = z3.Const("H0__len", u.LenSort)
+                    el = at0[u.r(v)][k]
+                    self.global_axioms.append(z3.ForAll(
+                        [r, k], z3.Implies(z3.And(owner, u.is_R(v), k >= 0, k < ln0[u.r(v)]), self.type_pred(el, inner[4:])),
+                        patterns=[el]))
+            except Undecided:
+                continue
 
     def read_field(self, st, obj, field, cls_hint=None):
         u = self.u
